@@ -724,6 +724,9 @@ class SimProcess(_L2):
     def native_search(self, budget):
         for cs in ([0], [0, 0], [0, 4], [0, 5], [0, 0, 0], [0, 5, 0], [0, 0, 5], [0, 4, 4], [1, 6, 0, 0]):
             yield {"native_case": {"current_step": cs, "max_loop_iterations": 5}}
+        # (the guard is the same for every simulator type: hybrid simulators have trigger inputs as well)
+        for cs in ([0, 5], [0, 4], [1, 6, 0]):
+            yield {"native_case": {"current_step": cs, "max_loop_iterations": 5, "type": "hybrid"}}
         for where in ("step", "get_data"):
             for err in ("ConnectionResetError", "BrokenPipeError", "ConnectionError", "ConnectionAbortedError"):
                 yield {"native_case": {"connection_lost_in": where, "error": err}}
